@@ -45,6 +45,10 @@ JOBS += [
 # the public API functions are one-line forwarders to the bodies under contract: checked mechanically (DESIGN §3.5b)
 from units.common_forward import forward_job
 JOBS = list(JOBS) + [forward_job("c10")]
+# "a thread that never stored reads NULL": creation resets the tree of the (recycled) record on EVERY creation path;
+# the creation job of C01 demands it where the new thread is published or started
+import importlib as _il10
+JOBS = list(JOBS) + [j for j in _il10.import_module("units.c01").JOBS if j.name in ("c01.create",)]
 META = {
  "level": "proof",
  "level_text": "Contracts on the real TLS tree and key allocator bodies, for every key index, every canonical tree shape and arbitrary (unzeroed) pool memory; free-list well-formedness as a local inductive invariant over witness cells. Complete because all loops are bounded by constants of the type and fully unwound.",
